@@ -6,9 +6,6 @@ import (
 	"github.com/gkampitakis/go-snaps/internal/vxrt"
 )
 
-// differs: a != b as one term (lengths are concrete).
-func differs(a, b string) bool { return vxrt.Not(vxrt.Eq(a, b)) }
-
 // H_C02_snapshot: a stored text F0 and a different received text F1, updating
 // not enabled: exactly one Error, no Log, nothing written.
 func H_C02_snapshot() {
@@ -99,30 +96,63 @@ func H_C02_standalone() {
 	vxrt.Assert(vxrt.Eq(readFile(dir+"/TestS_1.snap"), f0), "C02:file-unchanged")
 }
 
-// k1EscapeAlias is the class of known finding K1: the two texts become equal
-// when every whole line "/-/-/-/" is read as "---" (the escape token is itself
-// a legal line, and comparison happens after unescaping both sides).
-func k1EscapeAlias(a, b string) bool {
-	return vxrt.Eq(unescapeRef(a), unescapeRef(b))
+// H_C02_json: a stored JSON entry that differs from the received document's stored form in any
+// way - a value, or only its layout (indentation, key order, spacing) - fails exactly once and
+// nothing is written: the comparison is on the stored bytes.
+func H_C02_json() {
+	vxrt.CI(false)
+	vxrt.EnvPresent("NO_COLOR")
+	dir := vxrt.Dir()
+	c := WithConfig(Dir(dir), Filename("f"))
+	stored := []string{
+		"{\n    \"a\": 1,\n    \"b\": \"x\"\n}", // four-space indent
+		"{\"a\":1,\"b\":\"x\"}",                 // compact
+		"{\n \"b\": \"x\",\n \"a\": 1\n}",       // other member order
+		"{\n \"a\": 2,\n \"b\": \"x\"\n}",       // other value
+		"{\n \"a\": 1,\n \"b\": \"x\"\n}\n",     // canonical plus a final newline
+	}[vxrt.Choice("stored-form", 5)]
+	standalone := vxrt.Bool("standalone")
+	path := dir + "/f.snap"
+	if standalone {
+		path = dir + "/f_1.snap.json"
+		writeFile(path, stored)
+	} else {
+		writeFile(path, frame("TestJ - 1", stored))
+	}
+	before := readFile(path)
+	stamp := vxrt.FSStamp()
+	t := newT("TestJ")
+	if standalone {
+		c.MatchStandaloneJSON(t, `{"a":1,"b":"x"}`)
+	} else {
+		c.MatchJSON(t, `{"a":1,"b":"x"}`)
+	}
+	t.end()
+	vxrt.Assert(len(t.errors) == 1, "C02:one-error")
+	vxrt.Assert(len(t.logs) == 0, "C02:no-log")
+	vxrt.Assert(vxrt.FSStamp() == stamp && readFile(path) == before, "C02:no-write")
 }
 
-// unescapeRef is the harness's own statement of "map whole lines /-/-/-/ to ---".
-func unescapeRef(s string) string {
-	out := ""
-	line := ""
-	for i := 0; i <= len(s); i++ {
-		if i == len(s) || s[i] == '\n' {
-			if line == "/-/-/-/" {
-				line = "---"
-			}
-			out += line
-			if i < len(s) {
-				out += "\n"
-			}
-			line = ""
-			continue
-		}
-		line += s[i : i+1]
+// H_C02_ansi: texts that differ only inside terminal escape sequences (a red versus a green
+// word) are different texts, with colours on or off.
+func H_C02_ansi() {
+	vxrt.CI(false)
+	vxrt.EnvPresent("NO_COLOR")
+	dir := vxrt.Dir()
+	c := WithConfig(Dir(dir), Filename("f"))
+	frag := []string{"\x1b[31mERROR\x1b[0m", "\x1b[32mERROR\x1b[0m", "ERROR", "\x1b[1;31mERROR\x1b[0m done", "\x1b[2K"}
+	a := frag[vxrt.Choice("stored", len(frag))]
+	b := frag[vxrt.Choice("received", len(frag))]
+	vxrt.Assume(a != b)
+	if vxrt.Bool("more-lines") {
+		a, b = "head\n"+a+"\ntail", "head\n"+b+"\ntail"
 	}
-	return out
+	writeFile(dir+"/f.snap", frame("TestA - 1", a))
+	stamp := vxrt.FSStamp()
+	t := newT("TestA")
+	c.MatchSnapshot(t, b)
+	t.end()
+	vxrt.Assert(len(t.errors) == 1, "C02:one-error")
+	vxrt.Assert(len(t.logs) == 0, "C02:no-log")
+	vxrt.Assert(vxrt.FSStamp() == stamp, "C02:no-write")
 }
